@@ -8,7 +8,7 @@ CONSTANTS
   NCtl = 2
   SndOps = {"S", "SR", "SC", "BYE"}
   RcvOps = {"RcR", "RcC", "RvR", "RfR", "RvC", "RfC"}
-  CtlOps = {"KX", "KY", "BX", "BY", "B0"}
+  CtlOps = {"KX", "KY", "BX", "BY", "B0", "CL"}
   Deviations = {}
 VIEW view
 INVARIANTS TypeOK
